@@ -89,7 +89,11 @@ def _pieces(E, st, templ, mark=None):
     return out
 
 
-def text_case(dkind, style, sign, tkind, tstyle, mark, zone):
+def text_case(dkind, style, sign, tkind, tstyle, mark, zone, cfg=None):
+    """cfg: None (2 expanded digits, assumed zone +05:30) | 'x0' | 'only-basic' | 'unknown'"""
+    pkw = {"x0": dict(x=0), "only-basic": dict(only_basic=True),
+           "unknown": dict(assumed=None)}.get(cfg, {})
+
     def build(E, st):
         ps = []
         if sign:
@@ -107,7 +111,10 @@ def text_case(dkind, style, sign, tkind, tstyle, mark, zone):
                     if tstyle == "extended":
                         ps.append(":")
                     ps.append(fld(E, st, "time_zone_minute", 2))
-        return {"self": mk_text_parser(E, st), "timepoint_string": Text(ps).simplest()}
+        r = mk_text_parser(E, st, **pkw)
+        if cfg == "unknown":
+            st.obj(r).slots["default_to_unknown_time_zone"] = True
+        return {"self": r, "timepoint_string": Text(ps).simplest()}
     year = YEAR4 if not sign else "(%s(10000 * fld('expanded_year') + %s))" % (
         "-" if sign == "-" else "", YEAR4)
     name = "%s:%s%s/%s%s%s/%s" % (style[0], dkind, sign or "", tkind,
@@ -116,6 +123,13 @@ def text_case(dkind, style, sign, tkind, tstyle, mark, zone):
     # hh and hh,ii / +hh are spelled alike in both notations; anything with a second
     # time field or zone minutes shows its notation
     mixed = style != tstyle and (tkind not in ("none", "h", "h-dec") or zone.endswith("mm"))
+    if cfg:
+        name = cfg + "|" + name
+    if cfg == "only-basic" and (style == "extended" or (
+            tstyle == "extended" and (tkind not in ("none", "h", "h-dec") or zone.endswith("mm")))):
+        mixed = True        # a basic-only parser refuses whatever is spelled in extended notation
+    if cfg == "x0" and sign:
+        mixed = True        # no expanded digits agreed: a signed year is not a form of this parser
     if mixed:
         # basic date with extended time (or the reverse): refused as a whole
         return Case(name, build, ensures=["False"],
@@ -125,7 +139,9 @@ def text_case(dkind, style, sign, tkind, tstyle, mark, zone):
     sgn = "-" if zone.startswith("-") else ""
     if zone in ("none", "Z") or tkind == "none":
         zok = "True"
-        zens = ("result._time_zone._hours == 5 and result._time_zone._minutes == 30"
+        zens = (("result._time_zone._hours == 5 and result._time_zone._minutes == 30"
+                 if cfg != "unknown" else
+                 "result._time_zone._hours == 0 and result._time_zone._minutes == 0")
                 if zone == "none" or tkind == "none" else
                 "result._time_zone._hours == 0 and result._time_zone._minutes == 0")
     elif zone.endswith("mm"):
@@ -140,7 +156,9 @@ def text_case(dkind, style, sign, tkind, tstyle, mark, zone):
            "result._truncated is False and result._time_zone._unknown is False",
            "result._num_expanded_year_digits == %d" % (2 if sign else 0)]
     raises = [("BadInputError", "not (%s and %s and %s)" % (dok, tok, zok))]
-    return Case(name, build, ensures=ens, raises=raises)
+    c = Case(name, build, ensures=ens, raises=raises)
+    c.valid = "%s and %s and %s" % (dok, tok, zok)
+    return c
 
 
 TEXT_CASES = []
@@ -153,6 +171,58 @@ for dk in DATE_SEPS:
                     for mark in ((",", ".") if tk.endswith("dec") else (None,)):
                         for zn in ZONES:
                             TEXT_CASES.append(text_case(dk, style, sg, tk, tstyle, mark, zn))
+
+# reduced-precision dates (date only): CCYY-MM, CCYY, CC, CCYYWww / CCYY-Www, signed or not
+def reduced_case(kind, style, sign):
+    templ = {"ym": ["century", "year_of_century", "-", "month_of_year"],
+             "y": ["century", "year_of_century"], "c": ["century"],
+             "yw": (["century", "year_of_century", "W", "week_of_year"] if style == "basic"
+                    else ["century", "year_of_century", "-W", "week_of_year"])}[kind]
+
+    def build(E, st):
+        ps = []
+        if sign:
+            ps += [sign, fld(E, st, "expanded_year", 2)]
+        ps += _pieces(E, st, templ)
+        return {"self": mk_text_parser(E, st), "timepoint_string": Text(ps).simplest()}
+    y4 = YEAR4 if kind != "c" else "(100 * fld('century'))"
+    year = y4 if not sign else "(%s(10000 * fld('expanded_year') + %s))" % (
+        "-" if sign == "-" else "", y4)
+    if kind == "yw":
+        ok = "valid_week(%s, fld('week_of_year'), 1)" % year
+        dens = ("result._year == %s and result._week_of_year == fld('week_of_year')"
+                " and result._day_of_week == 1 and result._month_of_year is None"
+                " and result._day_of_year is None" % year)
+    else:
+        mo = "fld('month_of_year')" if kind == "ym" else "1"
+        ok = "valid_cal(%s, %s, 1)" % (year, mo)
+        dens = ("result._year == %s and result._month_of_year == %s and result._day_of_month == 1"
+                " and result._day_of_year is None and result._week_of_year is None" % (year, mo))
+    ens = [dens, "result._hour_of_day == 0 and result._minute_of_hour == 0"
+                 " and result._second_of_minute == 0",
+           "result._time_zone._hours == 5 and result._time_zone._minutes == 30",
+           "result._truncated is False and result._time_zone._unknown is False",
+           "result._num_expanded_year_digits == %d" % (2 if sign else 0)]
+    return Case("reduced|%s:%s%s" % (style[0], kind, sign or ""), build, ensures=ens,
+                raises=[("BadInputError", "not (%s)" % ok)])
+
+
+for kind in ("ym", "y", "c", "yw"):
+    for style in (("basic", "extended") if kind == "yw" else ("basic",)):
+        for sg in (None, "+", "-"):
+            TEXT_CASES.append(reduced_case(kind, style, sg))
+
+# other parser configurations (each date notation with a covering set of time/zone forms)
+for cfg in ("x0", "only-basic", "unknown"):
+    for dk in DATE_SEPS:
+        for style in ("basic", "extended"):
+            for sg in ((None, "+") if cfg == "x0" else (None, "-")):
+                TEXT_CASES.append(text_case(dk, style, sg, "none", style, None, "none", cfg))
+                for tk, mark in (("hms", None), ("hm", None), ("h", None), ("hms-dec", ","),
+                                 ("h-dec", ".")):
+                    for tstyle in ("basic", "extended"):
+                        for zn in ("none", "Z", "-hhmm", "+hh"):
+                            TEXT_CASES.append(text_case(dk, style, sg, tk, tstyle, mark, zn, cfg))
 
 contract("parsers:TimePointParser.parse", use_at_calls=False, opaque=["dby"],
          check_frames=False, cases=TEXT_CASES, merge=True,
@@ -197,3 +267,36 @@ def _rt_cases():
 
 contract("ghost:timepoint_text_round_trip", use_at_calls=False, opaque=["dby"],
          cases=_rt_cases(), check_frames=False)
+
+
+# ---------------------------------------------------------------- dump_as_parsed (C07)
+def _dap_cases():
+    out = []
+    for dk in DATE_SEPS:
+        for style in ("basic", "extended"):
+            for sg in (None, "+", "-"):
+                for tk in ("none", "hms", "hm", "h"):
+                    for zn in (["none"] if tk == "none" else ZONES):
+                        base = text_case(dk, style, sg, tk, style, None, zn)
+                        if not hasattr(base, "valid"):
+                            continue
+
+                        def build(E, st, base=base, sg=sg):
+                            env = base.build(E, st)
+                            return {"parser": env["self"], "text": env["timepoint_string"],
+                                    "dumper": mk_text_dumper(E, st, 2 if sg else 0)}
+                        req = [base.valid]
+                        if sg == "-":
+                            # "-000000" is a second spelling of year +000000 and is dumped as that
+                            req.append("fld('expanded_year') != 0 or fld('century') != 0"
+                                       " or fld('year_of_century') != 0")
+                        if zn.startswith("-"):
+                            # "-00" / "-0000" / "-00:00" denote +00:00 and are dumped as such
+                            req.append("fld('time_zone_hour') != 0" + (
+                                " or fld('time_zone_minute') != 0" if zn.endswith("mm") else ""))
+                        out.append(Case(base.name, build, requires=req))
+    return out
+
+
+contract("ghost:parse_dump_as_parsed", use_at_calls=False, opaque=["dby"],
+         cases=_dap_cases(), check_frames=False)
